@@ -142,7 +142,36 @@ def r5_3(ctx):
                     val = peel(pt)
             sel = (sb, be, neg, val)
     if sel is None:
-        ctx.bad("stream-select", v.where(), "no `config.output_stream == Some(..)` test selects the stream")
+        # match form: `match self.config.output_stream { Some(Stderr) => &output.stderr, _ => &output.stdout }`
+        inner = []
+        for sb, st in switches(v):
+            ve, rvv = variant_edges(v, sb)
+            if ve is None or "Stderr" not in ve:
+                continue
+            names = [p_.get("n") for p_ in v.canon_place(rvv["place"])["p"] if isinstance(p_, dict)]
+            if "output_stream" in names:
+                inner.append((sb, ve))
+        if len(inner) != 1:
+            ctx.bad("stream-select", v.where(), "no `config.output_stream == Some(Stderr)` test / `Some(Stderr)` match arm selects the stream")
+            return
+        sb, ve = inner[0]
+        e_err = ve["Stderr"]
+        own = all(tg != e_err for vn, tg in ve.items() if vn != "Stderr")
+        ctx.check(own, "stream-select-const", v.loc(sb), "the stream selector has an arm for exactly Some(Stderr)",
+                  "the Some(Stderr) arm is shared with other output_stream values")
+        for field in ("stderr", "stdout"):
+            for bi, b in enumerate(v.blocks):
+                for st in b["stmts"]:
+                    if st["k"] == "assign" and st["rv"]["k"] == "ref":
+                        fs = [p_["n"] for p_ in st["rv"]["place"]["p"] if isinstance(p_, dict) and "n" in p_]
+                        if fs and fs[-1] == field and st["rv"]["place"]["l"] == 2:
+                            if field == "stderr":
+                                good = bi in v.reachable(e_err) and bi not in v.reachable(0, removed_edges=[(sb, e_err)])
+                            else:
+                                good = bi not in v.reachable(e_err)
+                            ctx.check(good, "stream-edge:" + field, v.loc(bi),
+                                      "output.%s is selected exactly %s the Some(Stderr) arm" % (field, "in" if field == "stderr" else "outside"),
+                                      "output.%s is selected on the wrong arm of the output_stream match (stdout/stderr swapped)" % field)
         return
     sb, (t_true, t_false), neg, val = sel
     shown = val.show()
